@@ -432,18 +432,18 @@ patterns:
 REPLACEMENTS = [None, 7, "text", [], {}, ["x"], {"k": "v"}, True]
 # single mutations for which the code has a dedicated diagnostic: must be rejected, not merely survive
 YAML_MUST_REJECT = [
-    (("language",), "fortran"),
-    (("declarations", 3, "declarations", 0, "cxx_template"), "text"),
-    (("declarations", 3, "declarations", 0, "cxx_template"), ["x"]),
-    (("declarations", 3, "declarations", 0, "cxx_template"), [{"k": "v"}]),
-    (("declarations", 3, "declarations", 0, "fortran_generic"), "text"),
-    (("declarations", 3, "declarations", 0, "fortran_generic"), ["x"]),
-    (("declarations", 3, "declarations", 0, "fortran_generic"), [{"k": "v"}]),
-    (("declarations", 0, "default_arg_suffix"), "text"),
-    (("declarations", 0), {"k": "v"}),
-    (("typemap", 0, "fields", "base"), "other"),
-    (("declarations", 1, "declarations", 0), {"decl": "namespace inner"}),
-    (("declarations", 4, "decl"), "typedef nosuchtype Alias"),
+    (("language",), "fortran", "language"),
+    (("declarations", 3, "declarations", 0, "cxx_template"), "text", "cxx_template"),
+    (("declarations", 3, "declarations", 0, "cxx_template"), ["x"], "cxx_template"),
+    (("declarations", 3, "declarations", 0, "cxx_template"), [{"k": "v"}], "cxx_template"),
+    (("declarations", 3, "declarations", 0, "fortran_generic"), "text", "fortran_generic"),
+    (("declarations", 3, "declarations", 0, "fortran_generic"), ["x"], "fortran_generic"),
+    (("declarations", 3, "declarations", 0, "fortran_generic"), [{"k": "v"}], "fortran_generic"),
+    (("declarations", 0, "default_arg_suffix"), "text", "default_arg_suffix"),
+    (("declarations", 0), {"k": "v"}, "Expected"),
+    (("typemap", 0, "fields", "base"), "other", "base"),
+    (("declarations", 1, "declarations", 0), {"decl": "namespace inner"}, "namespace"),
+    (("declarations", 4, "decl"), "typedef nosuchtype Alias", "nosuchtype"),
 ]
 
 
@@ -591,22 +591,23 @@ def run(ctx):
     if quick:
         # every deletion, and replacements by null / string / list / map
         muts = [m for m in muts if m[0][0] == "delete" or m[0][2] in (0, 2, 3, 6)]
-    for path, val in YAML_MUST_REJECT:
+    for path, val, expect in YAML_MUST_REJECT:
         t = copy.deepcopy(tree)
         node = t
         for p in path[:-1]:
             node = node[p]
         node[path[-1]] = copy.deepcopy(val)
-        muts.append((("must-reject", path, repr(val)), t))
+        muts.append((("must-reject", path, repr(val), expect), t))
     jobs = [(os.path.join(base, "m%d" % i), mid, t) for i, (mid, t) in enumerate(muts)]
     yres = isolate.pmap(yaml_case, jobs, W, chunksize=4)
     ctx.count(states=len(yres), transitions=len(yres), validated=len(yres))
     ctx.nontrivial_n(len(yres))
     for mid, status, exc, site, msg in yres:
         ctx.outcome("yaml " + status)
-        if mid[0] == "must-reject" and status == "ok":
-            ctx.violation("yaml accepted %s=%s" % (mid[1], mid[2]), "YAML misuse with a dedicated diagnostic was accepted: %s = %s" % (mid[1], mid[2]),
-                          {"kind": "yaml", "mutation": mid})
+        if mid[0] == "must-reject" and (status == "ok" or (status == "diagnostic" and mid[3] not in msg)):
+            ctx.violation("yaml accepted %s=%s" % (mid[1], mid[2]),
+                          "YAML misuse with a dedicated diagnostic: %s = %s -> %s %r (the message should name %r)" % (
+                              mid[1], mid[2], status, msg, mid[3]), {"kind": "yaml", "mutation": mid})
             continue
         if status in ("ok", "diagnostic"):
             if status == "diagnostic" and not msg.strip():
